@@ -119,6 +119,7 @@ func Fresh() (*Bed, error) {
 	b.ClearHooks()
 	if b.rpc != nil {
 		b.rpc.SetTaps(nil, nil)
+		b.rpc.SetFaults(nil, nil)
 	}
 	return b, nil
 }
@@ -132,10 +133,13 @@ func New() (*Bed, error) {
 	Silence()
 	b := &Bed{DB: fakemongo.New(), MQ: fakemqtt.New()}
 	current.Store(b)
-	if err := b.Restart(); err != nil {
-		return nil, err
+	var err error
+	for try := 0; try < 4; try++ { // a loaded machine may miss the 500 ms server-selection window
+		if err = b.Restart(); err == nil {
+			return b, nil
+		}
 	}
-	return b, nil
+	return nil, err
 }
 
 // OnHook registers a vhook listener (called synchronously at hook points).
